@@ -59,6 +59,43 @@ Example c07_replay :
   ∧ nth 7%nat o [] = [Out "late" (OSubAck 2 [0; 0]); Out "late" (OPublish "a/b" "2" 0 true false 0); Deadline "late" 120000].
 Proof. vm_compute. done. Qed.
 
+From Wasp Require Import Proofs.NodeFacts Proofs.Qos2Facts Proofs.StepFacts.
+(** The SUBSCRIBE step as a whole, from EVERY cluster state whose log consumers have caught up:
+    the SUBACK, then for each filter of the packet, in order, exactly the messages [Get] returns
+    for that filter inside the session's mount point — on the session's own connection, mount
+    point trimmed, with the stored payload and flags — then the keep-alive re-arm; nothing is
+    written to anybody else.  Which messages [Get] returns is [get_exactly_matching] (the added
+    entries of exactly the matching topics, once each) and what is stored per topic is
+    [retained_last_write] (the last write).  Stated for QoS 0 filters, where the packets carry
+    no identifier; at QoS 1/2 the same packets carry pool identifiers (C02 [qos_recipient_is_written]). *)
+Theorem subscribe_replays_exactly : ∀ seen cl c k s mid fs clk,
+  find_conn cl c = Some k → c_closed k = false → c_sid k = Some (ss_id s) →
+  alookup (ss_id s) (n_reg (getn cl (c_node k))) = Some s →
+  quiescent cl → Forall (λ fq : string * Z, fq.2 = 0) fs →
+  (step seen cl (ESubscribe c mid fs clk)).2 =
+    (wout (cl_bad cl) c (OSubAck mid (map snd fs)) ++
+     flat_map (λ fq, flat_map (λ r, wout (cl_bad cl) (ss_conn s)
+                                      (OPublish (trim_mp (ss_mp s) (p_topic (r_pub r))) (p_payload (r_pub r)) 0 (p_retain (r_pub r)) (p_dup (r_pub r)) 0))
+                              (ret_get (n_d (getn cl (c_node k))) (prefix_mp (ss_mp s) fq.1))) fs ++
+     dl s)%list.
+Proof. exact subscribe_step_spec. Qed.
+Print Assumptions subscribe_replays_exactly.
+
+(** the premises hold in a reachable state (the one before the last step of [c07_replay]) *)
+Example subscribe_premises_hold :
+  let ops := [EConnect 0%nat "pub" "cp" "" "" 60 None 30;
+              EPublish "pub" (Publish "a" "1" 0 true false) false 0 40; EPublish "pub" (Publish "a/b" "2" 0 true false) false 0 50;
+              EPublish "pub" (Publish "a" "" 0 true false) false 0 60; EConnect 0%nat "late" "cx" "" "" 60 None 70] in
+  let cl := fold_left (λ st o, (step [] st o).1) ops (cnew 1%nat) in
+  quiescent cl ∧
+  (∃ k s, find_conn cl "late" = Some k ∧ c_closed k = false ∧ alookup "s002" (n_reg (getn cl (c_node k))) = Some s ∧ c_sid k = Some (ss_id s) ∧
+          map (λ r, p_payload (r_pub r)) (ret_get (n_d (getn cl (c_node k))) (prefix_mp (ss_mp s) "a/#")) = ["2"]).
+Proof.
+  cbv zeta. split.
+  - intros [|j] Hj; [vm_compute; done|]. vm_compute in Hj. lia.
+  - eexists _, _. vm_compute. repeat split; reflexivity.
+Qed.
+
 Example c07_history :
   let os := [DRetSet (Publish "mp/a" "1" 0 true false) 10; DRetSet (Publish "mp/a/b" "2" 1 true false) 11; DRetSet (Publish "mp/a" "3" 0 true false) 12;
              DRetDelete "mp/a/b" 13; DRetSet (Publish "mp/b" "4" 0 true false) 14] in
